@@ -48,20 +48,29 @@ def model(chk, q):
                 if not q or b == 1:
                     confs.append((nb, 2, 1, t, b))
                     confs.append((nb, 2, 2, t, b))
-    for (nb, runs, fr, ft, fb) in confs:
-        r = tlc.run('TTest', cfg_text=tcfg(runs, fr, ft, fb, 'none', False, INV, ['Terminates', 'NotRefreshedOnFailure']), defs={'NB': tlc.tla(list(nb))}, workers=4, timeout=900)
-        chk.add_tlc(f'MC:NB={nb} runs={runs} fail=(run {fr}, thread {ft}, batch {fb})', r)
+    # consecutive runs on trace sets of different sizes: several batches first, then sets that fit one batch (and the reverse), a failure in either run
+    for nb, nb2 in (((3, 2), (1, 1)), ((1, 1), (2, 3))):
+        confs.append((nb, 2, 0, 0, 0, nb2))
+        for t in (1, 2):
+            confs.append((nb, 2, 2, t, 1, nb2))
+            confs.append((nb, 2, 1, t, 1, nb2))
+    for conf in confs:
+        nb, runs, fr, ft, fb = conf[:5]
+        nb2 = conf[5] if len(conf) > 5 else nb
+        r = tlc.run('TTest', cfg_text=tcfg(runs, fr, ft, fb, 'none', False, INV, ['Terminates', 'NotRefreshedOnFailure']), defs={'NB': tlc.tla(list(nb)), 'NB2': tlc.tla(list(nb2))}, workers=4, timeout=900)
+        chk.add_tlc(f'MC:NB={nb}{"" if nb2 == nb else " then " + str(nb2)} runs={runs} fail=(run {fr}, thread {ft}, batch {fb})', r)
         if r.violated:
             raise tlc.TLCError(f'TTest violates {r.violated} for NB={nb} runs={runs} fail={(fr, ft, fb)}\n' + '\n'.join(r.error_trace[:30]))
-    r = tlc.run('TTest', cfg_text=tcfg(1, 0, 0, 0, 'shared', False, INV, []), defs={'NB': tlc.tla([2, 2])}, workers=1, timeout=300)
+    r = tlc.run('TTest', cfg_text=tcfg(1, 0, 0, 0, 'shared', False, INV, []), defs={'NB': tlc.tla([2, 2]), 'NB2': tlc.tla([2, 2])}, workers=1, timeout=300)
     chk.add_tlc('MC:shared accumulator (must be refuted)', r)
     if not r.violated:
         raise tlc.TLCError('TTest lost sensitivity: a shared accumulator is not refuted')
 
 
-def schedules(chk, nb, runs, fr, ft, fb):
-    r = tlc.run('TTest', cfg_text=tcfg(runs, fr, ft, fb, 'none', True, ['Emit'], []), defs={'NB': tlc.tla(list(nb))}, workers=1, timeout=900)
-    chk.add_tlc(f'GEN:schedules NB={nb} runs={runs} fail=({fr},{ft},{fb})', r)
+def schedules(chk, nb, runs, fr, ft, fb, nb2=None):
+    nb2 = nb2 or nb
+    r = tlc.run('TTest', cfg_text=tcfg(runs, fr, ft, fb, 'none', True, ['Emit'], []), defs={'NB': tlc.tla(list(nb)), 'NB2': tlc.tla(list(nb2))}, workers=1, timeout=900)
+    chk.add_tlc(f'GEN:schedules NB={nb}{"" if nb2 == nb else " then " + str(nb2)} runs={runs} fail=({fr},{ft},{fb})', r)
     seen, out = set(), []
     for e in r.emits():
         key = json.dumps(e['sched'])
@@ -84,28 +93,46 @@ class Gate:
         self.rng = rng
         self.order = []
         self.__name__ = 'gate'
+        # where the scripted failure sits, counted per trace set (so that it can still be injected if the scripted ORDER cannot be followed)
+        self.fail_at = None
+        self.seen = {1: 0, 2: 0}
+        self.abandoned = False
+        cnt = {1: 0, 2: 0}
+        for kind, i in (schedule or []):
+            if kind == 'F':
+                self.fail_at = (i, cnt[i] + 1)
+                break
+            cnt[i] += 1
 
-    def index_of(self, t):
-        accs = self.analysis.accumulators
-        for i, a in enumerate(accs):
-            if a is t:
-                return i + 1
-        return 0
+    @staticmethod
+    def transform(traces):
+        return traces.astype('float64') * 2 + 1 if traces.dtype.kind == 'f' else traces * 2 + 1
 
-    def __call__(self, traces):
-        t = threading.current_thread()
-        i = self.index_of(t)
-        out = traces.astype('float64') * 2 + 1 if traces.dtype.kind == 'f' else traces * 2 + 1
-        if i == 0:
-            return out                     # main thread (trace-size probe)
+    def for_set(self, i):
+        """the preprocess placed in the container of trace set i (1 or 2): whichever thread processes the batch, it is a batch of set i"""
+        def gate(traces):
+            return self.call(traces, i)
+        gate.__name__ = f'gate{i}'
+        return gate
+
+    def call(self, traces, i):
+        out = self.transform(traces)
         if self.schedule is None:
             if self.delays:
                 time.sleep(self.rng.random() * self.delays)
             return out
         with self.cond:
-            ok = self.cond.wait_for(lambda: self.pos >= len(self.schedule) or (not self.busy and self.schedule[self.pos][1] == i), timeout=60)
-            if not ok:
-                raise RuntimeError('gate timeout: the schedule cannot be followed')
+            self.seen[i] += 1
+            ok = self.abandoned or self.cond.wait_for(lambda: self.abandoned or self.pos >= len(self.schedule) or (not self.busy and self.schedule[self.pos][1] == i), timeout=8)
+            if not ok or self.abandoned:
+                # the implementation does not take the batches in an order the thread model allows (e.g. it processes the sets one after the other):
+                # the ORDER is the mechanism's business - give it up (reported as drift), keep injecting the scripted failure at its (set, batch)
+                self.abandoned = True
+                self.cond.notify_all()
+                if self.fail_at == (i, self.seen[i]):
+                    self.order.append(['F', i])
+                    raise Boom(f'injected failure in accumulator {i}')
+                return out
             if self.pos >= len(self.schedule):
                 return out                 # after the scripted part (e.g. after a failure): free
             kind = self.schedule[self.pos][0]
@@ -130,8 +157,12 @@ def build(analysis, rows1, rows2, dtype, frame, gate):
     import scared
     a = np.array(rows1, dtype=dtype)
     b = np.array(rows2, dtype=dtype)
-    pre = scared.preprocess(gate)
-    return scared.TTestContainer(scared.traces.read_ths_from_ram(samples=a), scared.traces.read_ths_from_ram(samples=b), frame=frame, preprocesses=[pre])
+    plain = scared.preprocess(Gate.transform)
+    cont = scared.TTestContainer(scared.traces.read_ths_from_ram(samples=a), scared.traces.read_ths_from_ram(samples=b), frame=frame, preprocesses=[plain])
+    for i, c in enumerate(cont.containers, 1):
+        c.trace_size                                   # the one-trace probe happens here, with the ungated preprocess; the value is cached
+        c.preprocesses = [scared.preprocess(gate.for_set(i))]
+    return cont
 
 
 def install_done_hooks(analysis, gate):
@@ -152,7 +183,7 @@ def install_done_hooks(analysis, gate):
 def expected(chk, datasets):
     path = dh.write_json(datasets)
     try:
-        r = tlc.run('TTestCases', cfg_text=tlc.cfg(invariants=['VarianceFormulationsAgree', 'Emit']), env={'CASES': path}, workers=1, timeout=600)
+        r = tlc.run('TTestCases', cfg_text=tlc.cfg(invariants=['VarianceFormulationsAgree', 'ReplicationLemma', 'Emit']), env={'CASES': path}, workers=1, timeout=600)
     finally:
         os.unlink(path)
     chk.add_tlc('GEN:Welch certificates', r)
@@ -161,16 +192,17 @@ def expected(chk, datasets):
     return {e['case'] - 1: e for e in r.emits()}
 
 
-def welch_values(cert):
+def welch_values(cert, rep=1):
+    """rep: both sets presented rep times (TTestCases.ReplicationLemma: the second component is divided by rep)"""
     out = []
     for d, q in cert:
-        dd, qq = Fraction(d[0], d[1]), (Fraction(q[0], q[1]) if q[1] else None)
+        dd, qq = Fraction(d[0], d[1]), (Fraction(q[0], q[1]) / rep if q[1] else None)
         out.append(None if not qq else float(dd) / math.sqrt(float(qq)))
     return out
 
 
-def compare_result(chk, analysis, exp, precision, ctx):
-    want = welch_values(exp['cert'])
+def compare_result(chk, analysis, exp, precision, ctx, rep=1):
+    want = welch_values(exp['cert'], rep)
     got = np.asarray(analysis.result, dtype='float64')
     eps = st.eps_of(precision)
     for s, w in enumerate(want):
@@ -204,33 +236,38 @@ def run(chk):
     old = scared.Container._BATCH_SIZE
     L = 4
     frames = [(None, [0, 1, 2, 3]), (slice(1, 4), [1, 2, 3]), ([0, 2], [0, 2])]
-    confs = [((2, 2), 1, 0, 0, 0), ((3, 2), 1, 0, 0, 0), ((2, 2), 2, 0, 0, 0), ((2, 2), 1, 1, 1, 2), ((3, 2), 1, 1, 2, 1), ((2, 2), 2, 1, 2, 2)]
+    confs = [((2, 2), 1, 0, 0, 0), ((3, 2), 1, 0, 0, 0), ((2, 2), 2, 0, 0, 0), ((2, 2), 1, 1, 1, 2), ((3, 2), 1, 1, 2, 1), ((2, 2), 2, 1, 2, 2),
+             ((2, 2), 2, 2, 1, 1, (1, 1)), ((2, 2), 2, 2, 2, 1, (1, 1)), ((1, 1), 2, 0, 0, 0, (2, 2))]        # second run on sets that fit one batch (failing) / on larger sets
     if not q:
         confs += [((3, 3), 1, 0, 0, 0), ((3, 2), 2, 0, 0, 0), ((3, 3), 1, 1, 1, 3), ((1, 3), 1, 0, 0, 0), ((3, 2), 2, 2, 1, 1)]
     try:
         datasets, plan = [], []
-        for ci, (nb, runs, fr, ft, fb) in enumerate(confs):
-            scheds = schedules(chk, nb, runs, fr, ft, fb)
+        for ci, conf in enumerate(confs):
+            nb, runs, fr, ft, fb = conf[:5]
+            nb2 = conf[5] if len(conf) > 5 else nb
+            nbr = [nb] + [nb2] * (runs - 1)                      # batches per set, run by run
+            scheds = schedules(chk, nb, runs, fr, ft, fb, nb2)
             if q and len(scheds) > 12:
                 rng.shuffle(scheds)
                 scheds = scheds[:12]
             bs = rng.choice([2, 3])
-            sizes = [(nb[i] - 1) * bs + rng.choice([1, bs]) for i in range(2)]
-            rows = [[[rng.randint(0, 9) for _ in range(L)] for _ in range(sizes[i] * runs)] for i in range(2)]     # gate: 2x+1 <= 19, whose square fits no 8-bit type
+            sizes = [[(nbr[r][i] - 1) * bs + rng.choice([1, bs]) for i in range(2)] for r in range(runs)]      # sizes[run][set]
+            offs = [[sum(sizes[k][i] for k in range(r)) for i in range(2)] for r in range(runs + 1)]           # offs[run][set]: first row of that run
+            rows = [[[rng.randint(0, 9) for _ in range(L)] for _ in range(offs[runs][i])] for i in range(2)]     # gate: 2x+1 <= 19, whose square fits no 8-bit type
             fi = ci % len(frames)
             # expected per number of completed runs
             exp_idx = {}
             for upto in range(1, runs + 1):
                 exp_idx[upto] = len(datasets)
-                datasets.append({'a': apply_frame_pre(rows[0][:sizes[0] * upto], frames[fi][1]), 'b': apply_frame_pre(rows[1][:sizes[1] * upto], frames[fi][1])})
-            plan.append((nb, runs, fr, ft, fb, scheds, bs, sizes, rows, fi, exp_idx))
+                datasets.append({'a': apply_frame_pre(rows[0][:offs[upto][0]], frames[fi][1]), 'b': apply_frame_pre(rows[1][:offs[upto][1]], frames[fi][1])})
+            plan.append((nb, nbr, offs, runs, fr, ft, fb, scheds, bs, sizes, rows, fi, exp_idx))
         exps = expected(chk, datasets)
-        for (nb, runs, fr, ft, fb, scheds, bs, sizes, rows, fi, exp_idx) in plan:
+        for (nb, nbr, offs, runs, fr, ft, fb, scheds, bs, sizes, rows, fi, exp_idx) in plan:
             for si, e in enumerate(scheds):
                 sched = e['sched']
                 prec = 'float64' if si % 2 else 'float32'
                 dtype = ['uint8', 'int16', 'float32', 'int8'][si % 4]
-                label = f'NB={nb} runs={runs} fail=({fr},{ft},{fb}) schedule={"".join(k + str(i) for k, i in sched)} {prec}/{dtype}'
+                label = f'NB={nbr} runs={runs} fail=({fr},{ft},{fb}) schedule={"".join(k + str(i) for k, i in sched)} {prec}/{dtype}'
                 ctx = {'label': label, 'schedule': sched, 'nb': list(nb), 'runs': runs, 'fail': [fr, ft, fb], 'batch_size': bs, 'sizes': sizes, 'rows': rows, 'frame': fi, 'precision': prec, 'dtype': dtype}
                 scared.set_batch_size(bs)
                 an = scared.TTestAnalysis(precision=prec)
@@ -243,7 +280,7 @@ def run(chk):
                     failed = False
                     while k < len(sched):
                         kind, i = sched[k]
-                        if kind == 'B' and cnt[i] >= nb[i - 1]:
+                        if kind == 'B' and cnt[i] >= nbr[r - 1][i - 1]:
                             break
                         cur.append(sched[k])
                         k += 1
@@ -251,7 +288,7 @@ def run(chk):
                             failed = True
                         else:
                             cnt[i] += 1
-                        if not failed and cnt[1] == nb[0] and cnt[2] == nb[1]:
+                        if not failed and cnt[1] == nbr[r - 1][0] and cnt[2] == nbr[r - 1][1]:
                             break
                     per_run.append(cur)
                 bad = None
@@ -259,7 +296,7 @@ def run(chk):
                 gates_used = []
                 for r in range(1, runs + 1):
                     gate = Gate(an, per_run[r - 1])
-                    cont = build(an, rows[0][sizes[0] * (r - 1):sizes[0] * r], rows[1][sizes[1] * (r - 1):sizes[1] * r], dtype, frames[fi][0], gate)
+                    cont = build(an, rows[0][offs[r - 1][0]:offs[r][0]], rows[1][offs[r - 1][1]:offs[r][1]], dtype, frames[fi][0], gate)
                     if not an.accumulators:
                         an.accumulators = [scared.ttest.TTestThreadAccumulator(precision=an.precision), scared.ttest.TTestThreadAccumulator(precision=an.precision)]
                     install_done_hooks(an, gate)
@@ -294,10 +331,13 @@ def run(chk):
                         bad = 'reported'
                         break
                     for i in range(2):
-                        if an.accumulators[i].processed_traces != sizes[i] * r:
-                            bad = f'accumulator {i + 1} counts all traces of its set ({an.accumulators[i].processed_traces} vs {sizes[i] * r})'
+                        if an.accumulators[i].processed_traces != offs[r][i]:
+                            bad = f'accumulator {i + 1} counts all traces of its set ({an.accumulators[i].processed_traces} vs {offs[r][i]})'
                     prev_result = np.array(an.result, copy=True)
                 for g, want_order in gates_used:
+                    if g.abandoned:
+                        chk.drift += 1
+                        continue
                     if g.order != [list(x) for x in want_order][:len(g.order)] or (bad is None and not any(x[0] == 'F' for x in want_order) and len(g.order) != len(want_order)):
                         raise tlc.TLCError(f'gate binding broken: prescribed {want_order}, observed {g.order} ({label})')
                 inter = len(set(i for _, i in sched)) == 2
@@ -353,6 +393,18 @@ def free_running(chk, rng, q):
         chk.count(('free', k), nontrivial=len(rows[0]) > bs or len(rows[1]) > bs)
         chk.traces_validated += 1
         compare_result(chk, an, exps[k], prec, ctx)
+        if k < (2 if q else 8):
+            # the same sets presented rep times: many thousand traces, taken as ONE batch per set and as a few large batches
+            rep = 10007 // min(len(rows[0]), len(rows[1])) + 1
+            big = [np.tile(np.array(rows[0]), (rep, 1)).tolist(), np.tile(np.array(rows[1]), (rep, 1)).tolist()]
+            for bs2 in (10 ** 6, 4099):
+                scared.set_batch_size(bs2)
+                an = scared.TTestAnalysis(precision='float64')
+                cont = build(an, big[0], big[1], fdt, None, Gate(an, None))
+                an.run(cont)
+                chk.count(('free-large', k, bs2), nontrivial=True)
+                chk.traces_validated += 1
+                compare_result(chk, an, exps[k], 'float64', dict(ctx, label=ctx['label'] + f' x{rep} (batch size {bs2})', repeated=rep, batch_size=bs2, rows=None), rep=rep)
 
 
 def replay(chk, path):
